@@ -41,6 +41,10 @@ def tasks(tier):
                                                               why="force and moment balance are shown for the stress of the current state; a body that carries stress over from an earlier evaluation loses them")))
     ts.append(("multi-point constraints and contact", "run_included", dict(modname="c01", fname="run_multipoint", kwargs={}, oid="C14.O7",
                                                                           why="self-equilibrated constraint forces in every configuration (skip tuples, centre point among the points, contact with zero initial gap)")))
+    # body forces, mass and pressure resultants rest on the array forms; on a uniform-grid region (one evaluated cell, broadcast to all cells)
+    # the one cell's values have to reach the slots of every cell
+    ts.append(("array forms on a uniform-grid region", "run_included", dict(modname="c02", fname="run_uniform", kwargs={}, oid="C14.O8",
+                                                                           why="the resultant of a body force / the total mass on a region built with uniform=True is the sum over all cells of the one evaluated cell's contribution")))
     return ts
 
 
